@@ -75,8 +75,24 @@ def id_class(s):
 
 
 @st.composite
+def id_lists(draw, min_size=1, max_size=6):
+    """Gene identifiers for one rule; in a quarter of the cases a family in which every identifier contains the previous
+    one (g1, g10, g101, ...: real models have b1 / b12, gA / gAB), where substring tests and set membership differ."""
+    if draw(st.integers(0, 3)) == 0:
+        base = draw(st.sampled_from(["g1", "b", "4g", "a.1", "ORF", "x"]))
+        fam, cur = [base], base
+        for ch in draw(st.lists(st.sampled_from(["0", "1", "b", "_", ".2"]), min_size=max(1, min_size - 1), max_size=max_size - 1)):
+            cur = cur + ch if draw(st.booleans()) else ch.strip(".") + cur if ch.strip(".").isalnum() and not ch[0].isdigit() else cur + ch
+            fam.append(cur)
+        fam = [x for x in dict.fromkeys(fam) if _ok_id(x)]
+        if len(fam) >= max(2, min_size):
+            return draw(st.permutations(fam))
+    return draw(st.lists(gene_id().filter(_ok_id), min_size=min_size, max_size=max_size, unique=True))
+
+
+@st.composite
 def rule_cases(draw):
-    ids = draw(st.lists(gene_id().filter(_ok_id), min_size=1, max_size=6, unique=True))
+    ids = draw(id_lists())
     tree = draw(gprtree.trees(ids, max_fan=4))
     return {
         "tree": tree,
@@ -89,7 +105,7 @@ def rule_cases(draw):
 
 @st.composite
 def remove_cases(draw):
-    ids = draw(st.lists(gene_id().filter(_ok_id), min_size=2, max_size=6, unique=True))
+    ids = draw(id_lists(min_size=2))
     n = draw(st.integers(2, 5))
     rules = [draw(gprtree.opt_trees(ids, max_fan=3)) for _ in range(n)]
     used = sorted(set().union(*[gprtree.leaves(t) for t in rules])) or ids
@@ -112,8 +128,23 @@ def _bad(bucket, msg):
     raise PropertyViolation(bucket, msg)
 
 
-def table_of(gpr, genes):
-    return [bool(gpr.eval(set(ko))) for ko in gprtree.subsets(genes)]
+def _absent(ko, form):
+    """The absent genes in one of the argument forms GPR.eval documents ("DictList, set, str, Iterable ... name, list")."""
+    from cobra import DictList, Gene
+
+    if form == "str" and len(ko) == 1:
+        return ko[0]
+    if form == "dictlist":
+        return DictList(Gene(g) for g in ko)
+    return {"set": set, "frozenset": frozenset, "list": list, "tuple": tuple}.get(form, set)(ko)
+
+
+FORMS = ["set", "frozenset", "list", "tuple", "dictlist", "str"]
+
+
+def table_of(gpr, genes, form=None):
+    # the form rotates with the subset unless one is given, so that every table uses all of them
+    return [bool(gpr.eval(_absent(ko, form or FORMS[k % len(FORMS)]))) for k, ko in enumerate(gprtree.subsets(genes))]
 
 
 def same_function(gpr, tree, what, text):
